@@ -91,8 +91,9 @@ def op_coq(op):
     if k == "tamper":
         if op.get("garbage") is not None:
             c = "(Some (CGarbage %d))" % op["garbage"]
-        elif op.get("list") is not None:
-            c = "(Some (CList %s))" % entries_coq(op["list"])
+        elif op.get("list") is not None or op.get("what") == "overwrite-list":
+            # (an empty list is omitted from the JSON line)
+            c = "(Some (CList %s))" % entries_coq(op.get("list") or [])
         else:
             c = "None"
         return "HOp (OTamper %s %s)" % (coq_str(op["out"]), c)
